@@ -90,7 +90,11 @@ class RecordingPolicy:
         self.log: list = []
 
     def next(self, elapsed_time: float, attempts: int, error: Exception, seed: int | None = None) -> float | None:
-        d = self.inner.next(elapsed_time, attempts, error, seed=seed)
+        try:
+            d = self.inner.next(elapsed_time, attempts, error, seed=seed)
+        except Exception:
+            _CURRENT_ORACLE.append((self.step_name, elapsed_time, attempts, error, "RAISE"))
+            raise
         self.log.append((self.step_name, elapsed_time, attempts, error, d))
         _CURRENT_ORACLE.append((self.step_name, elapsed_time, attempts, error, d))
         return d
@@ -151,7 +155,7 @@ def make_policy(p: dict | None, step_name: str) -> Any:
         class _Raises:
             def next(self, elapsed_time: float, attempts: int, error: Exception, seed: int | None = None) -> float | None:
                 raise RuntimeError("policy bug")
-        return _Raises()
+        inner = _Raises()
     else:
         raise ValueError(kind)
     return RecordingPolicy(inner, step_name)
